@@ -1147,7 +1147,22 @@ func (c *Ctx) rulesR3rpc2() {
 						break
 					}
 					shown = render(x)
-					if add, ok := x.(*ssa.Call); ok && calleeName(&add.Call) == "Add" && len(add.Call.Args) >= 1 && fieldOf(add.Call.Args[0]) == fCnt {
+					// the counter's Add result, possibly combined with constants only
+					var onlyCounter func(v ssa.Value) bool
+					onlyCounter = func(v ssa.Value) bool {
+						switch y := v.(type) {
+						case *ssa.Call:
+							return calleeName(&y.Call) == "Add" && len(y.Call.Args) >= 1 && fieldOf(y.Call.Args[0]) == fCnt
+						case *ssa.Convert:
+							return onlyCounter(y.X)
+						case *ssa.BinOp:
+							_, kx := y.X.(*ssa.Const)
+							_, ky := y.Y.(*ssa.Const)
+							return (kx && onlyCounter(y.Y)) || (ky && onlyCounter(y.X))
+						}
+						return false
+					}
+					if onlyCounter(x) {
 						good = true
 					}
 				}
@@ -1686,6 +1701,15 @@ func (c *Ctx) rulesR3batch3(only string) {
 					if bo, ok := mu.Value.(*ssa.BinOp); ok && bo.Op == token.ADD {
 						if ph, ok := bo.X.(*ssa.Phi); ok && ph.Comment == "rangeindex" {
 							hit = true
+						}
+					}
+					// or a value that was just tested against the miss marker (idx >= 0, idx != -1)
+					for _, g := range guardsOf(b) {
+						cond, _ := stripNot(g.Cond)
+						if cb, ok := cond.(*ssa.BinOp); ok && cb.X == mu.Value {
+							if k, isK := constInt(cb.Y); isK && (k == 0 || k == -1) {
+								hit = true
+							}
 						}
 					}
 					c.check(hit, "C16.cache", fmt.Sprintf("TxIndex: txCache store#%d memoizes a found position", n), ins.Pos(), "stores "+render(mu.Value)+", which can be the miss value")
